@@ -4,9 +4,11 @@ pub mod c03;
 pub mod c05;
 pub mod c07;
 pub mod c08;
+pub mod c09;
 pub mod c12;
 pub mod c15;
 pub mod c16;
+pub mod c18;
 pub mod c19;
 pub mod c20;
 
@@ -20,9 +22,11 @@ pub fn registry() -> Vec<PropEntry> {
 		PropEntry { id: "C05", level: "exploration", check: c05::check, replay: c05::replay },
 		PropEntry { id: "C07", level: "exploration", check: c07::check, replay: c07::replay },
 		PropEntry { id: "C08", level: "exploration", check: c08::check, replay: c08::replay },
+		PropEntry { id: "C09", level: "fault_enumeration", check: c09::check, replay: c09::replay },
 		PropEntry { id: "C12", level: "exploration", check: c12::check, replay: c12::replay },
 		PropEntry { id: "C15", level: "exploration", check: c15::check, replay: c15::replay },
 		PropEntry { id: "C16", level: "exploration", check: c16::check, replay: c16::replay },
+		PropEntry { id: "C18", level: "exploration", check: c18::check, replay: c18::replay },
 		PropEntry { id: "C19", level: "exploration", check: c19::check, replay: c19::replay },
 		PropEntry { id: "C20", level: "exploration", check: c20::check, replay: c20::replay },
 	]
